@@ -119,7 +119,7 @@ def redirect(ctx, prop, mod):
     mod.run(cmd, 3000)
     r = json.load(open(res))
     ctx.cov.update(strings=r['rows'], executions=r['executions'], oracle_checks=r['oracle_checks'], max_string_length=maxlen,
-                   flows=['password', 'password-json', 'otp', 'totp', 'sms', 'totp-q', 'sms-q', 'oauth2', 'oauth2-json', 'oauth2-error', 'oauth2-error-json', 'password-wrong'], exhaustive=True,
+                   flows=['password', 'password-json', 'otp', 'totp', 'sms', 'totp-q', 'sms-q', 'oauth2', 'oauth2-json', 'oauth2-error', 'oauth2-error-json', 'password-wrong', 'totp-f', 'sms-f'], exhaustive=True,
                    resolver_disagreements=r['resolver_disagreements'])
     ctx.cov['traces_validated_against_impl'] += r['executions']
     ctx.cov['samples'] = [x for x in rows if x['follows']][:2] + [x for x in rows if x['resolve'] == 'offsite'][:2]
